@@ -81,6 +81,13 @@ where
     }
 }
 
+#[cfg(bma400_verif)]
+impl AutoWakeupConfig {
+    pub(crate) fn verif_visit(&mut self, f: &mut dyn FnMut(u8, u8) -> Option<u8>) {
+        verif_visit_fields!(self, f, auto_wakeup0: AutoWakeup0, auto_wakeup1: AutoWakeup1);
+    }
+}
+
 #[cfg(test)]
 mod tests {
     use crate::tests::get_test_device;
